@@ -495,7 +495,7 @@ def to_int(x, constants):
         return int(x)
     except ValueError:
         val = constants.get(x)
-        return val if val is not None else calc.eval(x, constants)
+        return val if isinstance(val, int) else calc.eval(x, constants)
 
 
 def evaluate_stiffness_kinds(nodes):
